@@ -1542,6 +1542,84 @@ def small_node_tables(repo, run, rule, which):
         run.ok(rule, fi, fi.qualname + ' evaluated')
 
 
+def add_source_table(repo, run, rule):
+    """Builder.add_source evaluated over (raw_yaml in None/False/True) x (what opening the named file does: succeeds, FileNotFoundError,
+    OSError 22 / 36 - the text cannot be a file name -, OSError 13) x (explicit filename or not): raw text is parsed as given and never
+    opened; an opened file is parsed by content under its name; a missing file is an error when a file was asked for (raw_yaml=False:
+    the include lookup relies on this to try the next directory) and falls back to parsing the text only when raw_yaml is None; other
+    OS errors are never swallowed; an explicit filename names the parsed text; documents that are None are skipped; the current
+    file is reset afterwards"""
+    import pathlib
+    fi = repo.func('Builder.add_source')
+    bad = []
+    rows = 0
+    outcomes = {'ok': 'ok', 'missing': ('FileNotFoundError', None, {'errno': 2}), 'EINVAL': ('OSError', None, {'errno': 22}), 'ENAMETOOLONG': ('OSError', None, {'errno': 36}), 'EACCES': ('OSError', None, {'errno': 13})}
+    for raw in (None, False, True):
+        for oname, outcome in outcomes.items():
+            for filename in (None, 'given.yaml'):
+                for as_path in (False, True):
+                    if as_path and (raw or oname != 'ok'):
+                        continue
+                    b = Obj('builder', 'Builder', stages=[], _current_file=None, _default_safe_flag=True)
+                    log = []
+
+                    def stub(n, recv, a, k, log=log):
+                        if n == 'read':
+                            return 'CONTENT'
+                        if n in ('default_safe_flag', 'default_filename'):
+                            log.append((n, a[0] if a else None))
+                            return Opaque('cm')
+                        raise Unsupported('call of ' + n)
+
+                    def _open(name, mode='r', log=log, outcome=outcome):
+                        log.append(('open', name))
+                        if outcome == 'ok':
+                            return Obj('file', 'TextIO')
+                        raise Raised(*outcome)
+
+                    def _parse(src, bld=None, log=log, b=b):
+                        log.append(('parse', src, b.f.get('_current_file')))
+                        return ['DOC', None]
+                    f = FDE(repo, stubs={'read', 'default_safe_flag', 'default_filename'}, stub=stub)
+                    f.externals = {'pathlib.Path': pathlib.Path}
+                    f.extcalls = {'yaml.parse': _parse, 'parse': _parse, 'open': _open, 'os.path.expanduser': lambda x: x}
+                    src = pathlib.PurePosixPath('a.yaml') if as_path else 'a.yaml'
+                    r = fde_guard(lambda: f.call(fi, b, src, raw_yaml=raw, filename=filename))
+                    rows += 1
+                    what = 'add_source(%s, raw_yaml=%r%s) where opening the file %s' % ('Path' if as_path else 'text', raw, ', filename=%r' % filename if filename else '', {'ok': 'succeeds'}.get(oname, 'fails with ' + oname))
+                    opened = [x for x in log if x[0] == 'open']
+                    parsed = [x for x in log if x[0] == 'parse']
+                    if raw:
+                        want = ('parse', 'a.yaml', filename)
+                        want_err = None
+                        if opened:
+                            bad.append('%s: the text is opened as a file although raw_yaml is set' % what)
+                            continue
+                    elif oname == 'ok':
+                        want, want_err = ('parse', 'CONTENT', filename or 'a.yaml'), None
+                    elif oname in ('missing', 'EINVAL', 'ENAMETOOLONG') and raw is None:
+                        want, want_err = ('parse', 'a.yaml', filename), None
+                    else:
+                        want, want_err = None, outcome[0]
+                    if want_err is not None:
+                        if r.raised != want_err:
+                            bad.append('%s: %s, expected %s to reach the caller' % (what, 'raises ' + r.raised if r.raised else 'goes on and parses %r' % (parsed[0][1] if parsed else None), want_err))
+                        continue
+                    if r.raised:
+                        bad.append('%s: raises %s' % (what, r.raised))
+                    elif parsed != [want]:
+                        bad.append('%s: parses %s, expected the text %r under the file name %r' % (what, [(x[1], x[2]) for x in parsed], want[1], want[2]))
+                    elif b.f.get('stages') != ['DOC']:
+                        bad.append('%s: the stages are %r after a parse that yielded one document and one empty document' % (what, b.f.get('stages')))
+                    elif b.f.get('_current_file') is not None:
+                        bad.append('%s: the current file stays %r afterwards' % (what, b.f.get('_current_file')))
+    run.table(rule, rows, 'add_source over raw_yaml x outcome of opening the file x explicit filename')
+    if bad:
+        run.violation(rule, fi, 'source interpretation table', bad[0] + (' [%d rows]' % len(bad) if len(bad) > 1 else ''), witness=bad[:4])
+    else:
+        run.ok(rule, fi, 'source interpretation (%d rows)' % rows, 'raw text never opened; missing file: error for raw_yaml=False, fallback for None; other OS errors propagate')
+
+
 def tag_spec(repo, run, rule, tags):
     """the constructor registered for each of the given tags builds the node class the tag stands for, with the documented data
     handling (which argument receives the YAML value, whether scalars are parsed, whether a mapping is the data or the arguments) - and
